@@ -2,7 +2,8 @@
 Tie between the model's two predicates of the ear-clipping loop (Model/Tri.lean `isCcw`, `inTriangle`)
 and the transcription of `is_ccw` / `in_triangle` from triangulate.rs (`Gen/SrcTriangulate.lean`,
 regenerated on every run).  Obligations of C03 (and of C04, C05, whose caps come from the same loop).
-The loop itself (`triangulate`, the 2D/3D entry points) is hand-modelled and tied by correspondence.
+The 2D entry points are transcribed as well (the loop `triangulate` named directly); the loop itself and
+the 3D entry points are hand-modelled and tied by correspondence.
 -/
 import ScadVerif.Gen.SrcTriangulate
 import ScadVerif.Model.Tri
@@ -16,5 +17,18 @@ variable {α : Type} [Add α] [Sub α] [Mul α] [Div α] [Neg α] [OfNat α 0] [
 theorem is_ccw (a b c : Nat × Pt2 α) : Src.triangulate.is_ccw [a, b, c] = Tri.isCcw a.2 b.2 c.2 := rfl
 theorem in_triangle (p a b c : Nat × Pt2 α) :
     Src.triangulate.in_triangle p a b c = Tri.inTriangle p.2 a.2 b.2 c.2 := rfl
+
+/-! ### the 2D entry points: `assert!(n > 3)`, index the vertices, (reverse,) run the loop -/
+theorem zip_map_eta {β γ : Type} (l : List (β × γ)) : l.map (fun iv => (iv.1, iv.2)) = l := by
+  induction l with
+  | nil => rfl
+  | cons a t ih => simp
+theorem triangulate2d (vs : List (Pt2 α)) : Src.triangulate.triangulate2d vs = Tri.triangulate2d vs := by
+  unfold Src.triangulate.triangulate2d Tri.triangulate2d Tri.indexed
+  by_cases h : 3 < vs.length <;> simp [h, zip_map_eta]
+theorem triangulate2d_rev (vs : List (Pt2 α)) :
+    Src.triangulate.triangulate2d_rev vs = Tri.triangulate2dRev vs := by
+  unfold Src.triangulate.triangulate2d_rev Tri.triangulate2dRev Tri.indexed
+  by_cases h : 3 < vs.length <;> simp [h, zip_map_eta]
 
 end ScadVerif.TieTri
